@@ -1,3 +1,4 @@
+import Lm.Inst.CoreTie
 import Lm.Inv.CoreSafe
 import Lm.Inv.CoreGuards
 /-! # C18 — Token bucket bounds the rate of a module's actions
@@ -90,5 +91,11 @@ theorem C18_configured_full (md : Mod) (rate b : Nat) :
 
 example : play 2 2 [false, false, true, false] = some 0 := by decide
 example : play 2 2 [false, false, false] = none := by decide
+
+
+/-- tie A: the guard prefixes of the entry points this property is about, re-extracted from the source on every run,
+are the ones the model transcribes (`Lm.Inst.CoreTie`) -/
+theorem C18_guards_in_source :
+    Lm.Inst.CoreTie.slice Lm.Generated.CoreGuards.guards ["m_mod_set_tokenbucket"] = Lm.Inst.CoreTie.slice Lm.Inst.CoreTie.expected ["m_mod_set_tokenbucket"] := by decide
 
 end Lm.Props.C18
